@@ -157,7 +157,7 @@ pub fn run(ctx: &Ctx) -> i32 {
     let alphabet = alphabet(ctx.tier);
     let plans: Vec<Plan> = match ctx.tier {
         Tier::Quick => vec![
-            Plan { desired: 2, tick: false, depth: 4 },
+            Plan { desired: 2, tick: false, depth: 5 },
             Plan { desired: 64, tick: false, depth: 4 },
             Plan { desired: 1, tick: false, depth: 4 },
             Plan { desired: 64, tick: true, depth: 3 },
